@@ -22,14 +22,17 @@ ID = "C23"
 RULE = (
     "Hypothesis draws a binary design (two materials; background = the lower-permittivity one by default or the "
     "higher one when named explicitly; int32 or float index arrays) of shape 3..16 x 3..16 x 3..12 (or depth 1 "
-    "in its own sub-check): iid random volumes from a drawn seed and density, explicitly drawn small bit volumes, "
+    "in its own sub-check; connect: up to 12 x 10 x 5): iid random volumes from a drawn seed and density, explicitly drawn small bit volumes, "
     "and constructed adversaries whose geodesic length from the bottom layer is much larger than max(shape) — "
     "xy serpentines / square spirals / combs in a layer z >= 1 standing on a one-cell foot, vertical serpentines in "
     "the xz or yz plane, and 3-D stacked serpentines linked at alternating ends — each optionally mirrored, "
     "transposed, inverted (material <-> background, giving winding air channels) and perturbed by a few drawn "
-    "cell flips. Non-trivial (remove) = the expected output keeps material above the bottom layer and either "
+    "cell flips. Shapes come from a palette (6 in the quick tier, 16 in the thorough tier; 3 depth-1 shapes; 2/10 for "
+    "connect) so that one jit compilation serves many cases; 5 % of the thorough remove cases run eagerly. "
+    "Non-trivial (remove) = the expected output keeps material above the bottom layer and either "
     "removes some floating material or has a kept cell at geodesic distance > max(shape); non-trivial (connect) = "
-    "the input itself violates the post-condition (floating material or enclosed background present). "
+    "the input itself violates the post-condition (floating material or enclosed background present); non-trivial "
+    "(depth 1) = material and background both present. "
     "Distinct = sha1 of the case JSON."
 )
 ASSUMPTIONS = [
@@ -221,17 +224,38 @@ def build_design(case: dict) -> np.ndarray:
 # ------------------------------------------------------------------------------------------------
 # strategies
 # ------------------------------------------------------------------------------------------------
+# Shapes come from a palette so that the jit-compiled transform (one compilation per shape/background/dtype
+# combination and worker) is reused by many cases; eager execution costs 0.3-1 s (remove) or 3-15 s (connect) per
+# case because every call re-traces its fori_loop, compiled execution a few ms.
+REMOVE_SHAPES_QUICK = [(3, 3, 3), (5, 4, 3), (9, 9, 3), (7, 12, 5), (16, 16, 6), (10, 8, 12)]
+REMOVE_SHAPES_MORE = [(4, 4, 4), (3, 3, 9), (16, 3, 3), (3, 16, 4), (12, 12, 12), (16, 11, 8), (6, 6, 6), (13, 16, 4),
+                      (4, 3, 3), (8, 8, 3)]
+DEPTH1_SHAPES = [(3, 3, 1), (6, 5, 1), (12, 9, 1)]
+CONNECT_SHAPES_QUICK = [(4, 3, 3), (8, 7, 4)]  # compilation dominates: ~6 * nz * max(nx, ny) unrolled convolutions
+CONNECT_SHAPES_MORE = [(3, 3, 3), (4, 4, 4), (3, 3, 6), (12, 3, 3), (5, 12, 4), (9, 9, 3), (6, 5, 4), (12, 10, 5)]
+VARIANTS = [("default", "int32"), ("explicit_high", "float"), ("default", "float"), ("explicit_low", "int32"),
+            ("explicit_high", "int32"), ("explicit_low", "float")]
+ADVERSARIES = ["serp_xy", "serp_xy", "spiral_xy", "comb_xy", "serp_vert", "serp_vert", "stack3d"]
+
+
 @st.composite
-def design_case(draw, ctx, op: str, depth1: bool = False, max_xy: int = 16, max_z: int = 12):
-    kind = draw(st.sampled_from(
-        ["random", "random", "bits"] if depth1 else
-        ["random", "random", "bits", "serp_xy", "serp_xy", "spiral_xy", "comb_xy", "serp_vert", "serp_vert", "stack3d"]
-    ))
-    if kind == "bits":
-        shape = [draw(st.integers(3, 4)), draw(st.integers(3, 4)), 1 if depth1 else draw(st.integers(3, 4))]
+def design_case(draw, ctx, op: str, depth1: bool = False):
+    quick = ctx.tier == "quick"
+    if depth1:
+        palette = DEPTH1_SHAPES
+    elif op == "remove":
+        palette = REMOVE_SHAPES_QUICK + ([] if quick else REMOVE_SHAPES_MORE)
     else:
-        shape = [draw(st.integers(3, max_xy)), draw(st.integers(3, max_xy)), 1 if depth1 else draw(st.integers(3, max_z))]
+        palette = CONNECT_SHAPES_QUICK + ([] if quick else CONNECT_SHAPES_MORE)
+    si = draw(st.integers(0, len(palette) - 1))
+    shape = list(palette[si])
     nx, ny, nz = shape
+    kinds = ["random", "random", "random"]
+    if nx * ny * nz <= 64:
+        kinds += ["bits", "bits", "bits"]
+    if not depth1:
+        kinds += ADVERSARIES
+    kind = draw(st.sampled_from(kinds))
     case = {"op": op, "shape": shape, "kind": kind}
     if kind == "bits":
         case["bits"] = draw(st.lists(st.integers(0, 1), min_size=nx * ny * nz, max_size=nx * ny * nz))
@@ -256,8 +280,12 @@ def design_case(draw, ctx, op: str, depth1: bool = False, max_xy: int = 16, max_
             [draw(st.integers(0, nx - 1)), draw(st.integers(0, ny - 1)), draw(st.integers(0, nz - 1))]
             for _ in range(nflip)
         ]
-    case["bg"] = draw(st.sampled_from(["default", "default", "explicit_low", "explicit_high"]))
-    case["dtype"] = draw(st.sampled_from(["int32", "float"]))
+    if quick:  # one background/dtype variant per shape bounds the number of compilations
+        case["bg"], case["dtype"] = VARIANTS[si % len(VARIANTS)]
+        case["exec"] = "jit"
+    else:
+        case["bg"], case["dtype"] = draw(st.sampled_from(VARIANTS))
+        case["exec"] = draw(st.sampled_from(["jit"] * 19 + ["eager"])) if op == "remove" else "jit"
     return case
 
 
@@ -270,43 +298,53 @@ def remove_depth1_strategy(ctx):
 
 
 def connect_strategy(ctx):
-    return design_case(ctx, "connect", max_xy=12, max_z=6)
+    return design_case(ctx, "connect")
 
 
 # ------------------------------------------------------------------------------------------------
 # running the transforms standalone
 # ------------------------------------------------------------------------------------------------
-def _setup(ctx, case, cls_name):
+_JIT_CACHE: dict = {}
+
+
+def _run_transform(ctx, case, cls_name):
+    """Initialises the transform the way Device does (init_module + init_type) and applies it to the design."""
+    import jax
     import jax.numpy as jnp
     import fdtdx
     from fdtdx.objects.device.parameters import discrete
     from fdtdx.typing import ParameterType
 
-    # dict order deliberately differs from the permittivity order
-    materials = {"poly": fdtdx.Material(permittivity=2.4), "air": fdtdx.Material(permittivity=1.0)}
     bg = case["bg"]
     bg_name = {"default": None, "explicit_low": "air", "explicit_high": "poly"}[bg]
     bg_idx = 1 if bg == "explicit_high" else 0  # index in the permittivity-sorted material list [air, poly]
-    cfg = fdtdx.SimulationConfig(
-        time=100e-15, grid=fdtdx.UniformGrid(spacing=500e-9), backend="cpu",
-        dtype=jnp.float64 if ctx.f64 else jnp.float32,
-    )
-    t = getattr(discrete, cls_name)(background_material=bg_name)
     shape = tuple(case["shape"])
-    t = t.init_module(config=cfg, materials=materials, matrix_voxel_grid_shape=shape,
-                      single_voxel_size=(5e-7, 5e-7, 5e-7), output_shape={"params": shape})
-    t = t.init_type({"params": ParameterType.BINARY})
+    fdt = jnp.float64 if ctx.f64 else jnp.float32
+    key = (cls_name, shape, bg, case["dtype"], ctx.lane)
+    if key not in _JIT_CACHE:
+        # dict order deliberately differs from the permittivity order
+        materials = {"poly": fdtdx.Material(permittivity=2.4), "air": fdtdx.Material(permittivity=1.0)}
+        cfg = fdtdx.SimulationConfig(time=100e-15, grid=fdtdx.UniformGrid(spacing=500e-9), backend="cpu", dtype=fdt)
+        t = getattr(discrete, cls_name)(background_material=bg_name)
+        t = t.init_module(config=cfg, materials=materials, matrix_voxel_grid_shape=shape,
+                          single_voxel_size=(5e-7, 5e-7, 5e-7), output_shape={"params": shape})
+        t = t.init_type({"params": ParameterType.BINARY})
+
+        def call(a, t=t):
+            return t({"params": a})["params"]
+
+        _JIT_CACHE[key] = (call, jax.jit(call))
+    eager, jitted = _JIT_CACHE[key]
     mat = build_design(case)
     idx = np.where(mat, 1 - bg_idx, bg_idx)
-    if case["dtype"] == "int32":
-        arr = jnp.asarray(idx, dtype=jnp.int32)
-    else:
-        arr = jnp.asarray(idx, dtype=jnp.float64 if ctx.f64 else jnp.float32)
-    return t, mat, arr, bg_idx
+    arr = jnp.asarray(idx, dtype=jnp.int32 if case["dtype"] == "int32" else fdt)
+    out = (jitted if case.get("exec", "jit") == "jit" else eager)(arr)
+    return mat, np.asarray(out), bg_idx
 
 
 def _common_labels(ctx, case, mat):
-    ctx.classify("kind=" + case["kind"], "bg=" + case["bg"], "dtype=" + case["dtype"])
+    ctx.classify("kind=" + case["kind"], "bg=" + case["bg"], "dtype=" + case["dtype"], "exec=" + case.get("exec", "jit"),
+                 "shape=" + "x".join(str(v) for v in mat.shape))
     if case.get("invert"):
         ctx.classify("inverted")
     if case.get("flips"):
@@ -314,9 +352,8 @@ def _common_labels(ctx, case, mat):
 
 
 def body_remove(ctx, case):
-    t, mat, arr, bg_idx = _setup(ctx, case, "RemoveFloatingMaterial")
+    mat, out, bg_idx = _run_transform(ctx, case, "RemoveFloatingMaterial")
     shape = mat.shape
-    out = np.asarray(t({"params": arr})["params"])
     dist = bfs_dist(mat, bottom_seeds(shape))
     keep = dist >= 0
     expected = np.where(keep, 1 - bg_idx, bg_idx)
@@ -334,7 +371,10 @@ def body_remove(ctx, case):
     if shape[2] == 1:
         ctx.classify("depth1")
     ctx.metric("max_geodesic_over_maxshape", dmax / n)
-    ctx.nontrivial(above and (floating > 0 or dmax > n))
+    if shape[2] == 1:
+        ctx.nontrivial(bool(mat.any() and not mat.all()))
+    else:
+        ctx.nontrivial(above and (floating > 0 or dmax > n))
 
     ctx.check(out.shape == tuple(shape), "output shape differs", observed=list(out.shape), expected=list(shape))
     got = np.asarray(out, dtype=np.float64)
@@ -354,9 +394,9 @@ def body_remove(ctx, case):
 
 
 def body_connect(ctx, case):
-    t, mat, arr, bg_idx = _setup(ctx, case, "ConnectHolesAndStructures")
+    mat, out, bg_idx = _run_transform(ctx, case, "ConnectHolesAndStructures")
     shape = mat.shape
-    out = np.asarray(t({"params": arr})["params"], dtype=np.float64)
+    out = np.asarray(out, dtype=np.float64)
     ctx.check(out.shape == tuple(shape), "output shape differs", observed=list(out.shape), expected=list(shape))
     ok_values = np.isin(out, [0.0, 1.0])
     ctx.check(bool(ok_values.all()), "output is not a binary index array", observed=np.unique(out).tolist()[:6],
@@ -388,11 +428,11 @@ def body_connect(ctx, case):
 
 
 SUBS = [
-    Sub(name="remove_floating", body=body_remove, strategy=remove_strategy, quick=70, thorough=4000,
+    Sub(name="remove_floating", body=body_remove, strategy=remove_strategy, quick=400, thorough=40000,
         lanes=("f64",), rule="output == BFS component of the bottom layer, cell by cell"),
-    Sub(name="remove_floating_depth1", body=body_remove, strategy=remove_depth1_strategy, quick=12, thorough=300,
+    Sub(name="remove_floating_depth1", body=body_remove, strategy=remove_depth1_strategy, quick=40, thorough=1500,
         lanes=("f64",), rule="depth-1 designs: the only layer is the bottom layer, everything is kept"),
-    Sub(name="connect", body=body_connect, strategy=connect_strategy, quick=20, thorough=1000,
+    Sub(name="connect", body=body_connect, strategy=connect_strategy, quick=160, thorough=8000,
         lanes=("f64",), rule="post-condition: no floating material, no enclosed background (BFS on the output)"),
 ]
 
